@@ -364,7 +364,10 @@ def main(mod, argv=None):
     if merged.errors:
         for e in merged.errors[:5]:
             print("HARNESS-ERROR property=%s %s" % (prop, e), file=sys.stderr)
-        exit_code = 2
+        # a violation that was reproduced on re-execution stands on its own;
+        # harness errors alone make the run inconclusive
+        if exit_code == 0:
+            exit_code = 2
 
     # ---- evidence
     nontrivial = merged.nontrivial + len(merged.nontrivial_hashes)
